@@ -81,8 +81,25 @@ def gen_cases(ck):
                 m = sg.random_merge(rng, [[seq0[0], ["fw", 0, k]] + seq0[1:], sev0, seq1, sev1])
                 mask = rng.choice([(1 << len(m)) - 1, rng.getrandbits(len(m))])
                 add(sg.with_polls(m, mask), [1], "write_failure_at_item", {"len": n, "fail_at_write": k}, failing=[0])
+    # (s) items of two (three) open streams become available between the same two polls of the server, with
+    #     every previous stream winner (both round-robin orders): none may be consumed and thrown away; the
+    #     calls pipelined behind the streaming calls are answered after the ends, which also arrive together
+    for nconn in (2, 3):
+        for last in range(nconn):
+            for n_items in (1, 2):
+                tags = sg.Tags()
+                ev = []
+                for c in range(nconn):
+                    ev += [["n", c], ["a", c, sg.wire([sg.call("Sub", c, tags.next(), more=True),
+                                                       sg.call("Echo", c, tags.next(), v=c)]).hex()]]
+                ev += [["p"], ["si", last, 50, 1], ["p"]]
+                items = [["si", c, 60 + j, 1] for c in range(nconn) for j in range(n_items)]
+                ends = [["se", c] for c in range(nconn)]
+                for its, es in ((items, ends), (items[::-1], ends[::-1])):
+                    add(ev + its + [["p"]] + es + [["p"], ["p"]], list(range(nconn)), "items_same_poll",
+                        {"conns": nconn, "last_stream_winner": last, "items": n_items})
     # (c) random: 1..3 connections, several streams each, random interleaving and polls, some write failures
-    for i in range(2000 if quick else 10000):
+    for i in range(1400 if quick else 10000):
         nconn = rng.randrange(1, 4)
         tags = sg.Tags()
         seqs, hyp, failing = [], [], []
